@@ -154,6 +154,19 @@ func TestWorker(t *testing.T) {
 		shrink(t, spec)
 	case "hashes":
 		hashes(t, spec)
+	case "find":
+		// locate a run seed inside the explore sequence (debugging)
+		target := envU64("DSIM_SEED_EXACT", 0)
+		base := envU64("DSIM_SEED", 1)
+		for w := 0; w < 64; w++ {
+			for i := 0; i < envInt("DSIM_RUNS", 100000); i++ {
+				if dsim.Mix(base, dsim.HashStr(spec.ID), uint64(w), uint64(i)) == target {
+					emit(map[string]any{"worker": w, "index": i})
+					return
+				}
+			}
+		}
+		emit(map[string]any{"worker": -1})
 	case "dump":
 		seed := envU64("DSIM_SEED_EXACT", 1)
 		// DSIM_PRE: seeds to run first in this process (debugging history dependence)
